@@ -3,6 +3,7 @@ package sample
 import (
 	"encoding/json"
 	"fmt"
+	"math"
 	"math/rand"
 	"strings"
 
@@ -375,6 +376,19 @@ func compare(a, b interface{}) (int, bool) {
 
 	if b == nil {
 		return more, true
+	}
+
+	// msgpack decoding yields uint64 for integers sent in an unsigned format and float32 for 32-bit
+	// floats; compare them like the int64 / float64 the same numbers become on every other path.
+	switch av := a.(type) {
+	case uint64:
+		if av <= math.MaxInt64 {
+			a = int64(av)
+		} else {
+			a = float64(av)
+		}
+	case float32:
+		a = float64(av)
 	}
 
 	switch at := a.(type) {
